@@ -164,8 +164,12 @@ func (sc *SCtx) ident(name string) (Val, error) {
 		if v, ok := sc.g.params[name]; ok {
 			return v, nil
 		}
-		if v, ok := sc.localVar(name); ok {
-			return v, nil
+		// source-level locals are visible only to loop invariants (and closures see
+		// their captured variables); elsewhere a stray name must not bind silently
+		if sc.loopHeader != nil || len(sc.g.Fn.FreeVars) > 0 {
+			if v, ok := sc.localVar(name); ok {
+				return v, nil
+			}
 		}
 	}
 	switch name {
@@ -779,6 +783,40 @@ func (sc *SCtx) call(x *ECall) (Val, error) {
 			return scalar(g.errIs(a.T, b.T), types.Typ[types.Bool]), nil
 		case "seen":
 			return sc.seen(x)
+		case "as":
+			// as(x, T): the interface value x viewed as its concrete type T
+			if len(x.Args) != 2 {
+				return Val{}, fmt.Errorf("as(x, T) takes two arguments")
+			}
+			v, err := sc.eval(x.Args[0])
+			if err != nil {
+				return Val{}, err
+			}
+			ty, err := sc.typeByName(ExprString(x.Args[1]))
+			if err != nil {
+				return Val{}, err
+			}
+			if v.K != VScalar {
+				return Val{}, fmt.Errorf("as: not an interface value")
+			}
+			return scalar(v.T, ty), nil
+		case "separate":
+			// separate(a, b): the two slices have different backing arrays
+			if len(x.Args) != 2 {
+				return Val{}, fmt.Errorf("separate takes two slices")
+			}
+			a, err := sc.eval(x.Args[0])
+			if err != nil {
+				return Val{}, err
+			}
+			b, err := sc.eval(x.Args[1])
+			if err != nil {
+				return Val{}, err
+			}
+			if a.K != VSlice || b.K != VSlice {
+				return Val{}, fmt.Errorf("separate takes two slices")
+			}
+			return scalar(Ne(a.F[0].T, b.F[0].T), types.Typ[types.Bool]), nil
 		case "disjoint":
 			// disjoint(w, r): the writable window of slice w (off..off+cap) does not
 			// overlap the readable window of slice r (off..off+len)
@@ -908,6 +946,9 @@ func (sc *SCtx) call(x *ECall) (Val, error) {
 			}
 		}
 		if fn, ok := obj.(*types.Func); ok {
+			if isIfaceType(rt) {
+				return sc.ifaceCall(rt, fn, recv, x.Args)
+			}
 			return sc.funcCall(fn, &recv, x.Args)
 		}
 		return Val{}, fmt.Errorf("no method %s on %s", sel.Name, typeStr(rt))
@@ -1112,4 +1153,59 @@ func (sc *SCtx) defineCall(d *Define, argEs []Expr) (Val, error) {
 		}
 	}
 	return v, nil
+}
+
+// ifaceCall: a pure interface method used inside a contract.
+func (sc *SCtx) ifaceCall(it types.Type, fn *types.Func, recv Val, argEs []Expr) (Val, error) {
+	g := sc.g
+	args := []Val{recv}
+	for _, a := range argEs {
+		v, err := sc.eval(a)
+		if err != nil {
+			return Val{}, err
+		}
+		args = append(args, v)
+	}
+	if f, rv, ok := g.devirtualize(sc.state(), it, fn, recv); ok {
+		key := FuncKey(f)
+		c := g.P.ContractFor(key)
+		if c == nil || !c.Pure {
+			return Val{}, fmt.Errorf("method %s is not declared pure", ShortKey(key))
+		}
+		args[0] = rv
+		sig := f.Signature
+		var resTy types.Type = sig.Results()
+		if sig.Results().Len() == 1 {
+			resTy = sig.Results().At(0).Type()
+		}
+		saved := g.quiet
+		g.quiet = true
+		st := sc.state().clone()
+		r := g.applyContract(st, c, key, g.calleeNames(f, sig, c), args, sig, resTy, 0, true)
+		g.quiet = saved
+		return r, nil
+	}
+	key := ifaceMethodKey(it, fn)
+	c := g.P.ContractFor(key)
+	if c == nil || !c.Pure {
+		return Val{}, fmt.Errorf("interface method %s has no pure contract", ShortKey(key))
+	}
+	sig := fn.Type().(*types.Signature)
+	var resTy types.Type = sig.Results()
+	if sig.Results().Len() == 1 {
+		resTy = sig.Results().At(0).Type()
+	}
+	names := []string{"recv"}
+	for i := 0; i < sig.Params().Len(); i++ {
+		names = append(names, sig.Params().At(i).Name())
+	}
+	if len(c.Params) > 0 {
+		copy(names, c.Params)
+	}
+	saved := g.quiet
+	g.quiet = true
+	st := sc.state().clone()
+	r := g.applyContract(st, c, key, names, args, sig, resTy, 0, false)
+	g.quiet = saved
+	return r, nil
 }
